@@ -29,7 +29,7 @@ def run(tier, seed):
             asts.append(ast)
     progs = runner.compile_programs(items, want=('machine', 'codegen'))
     pairs = [(p, a) for p, a in zip(progs, asts) if p.ok]
-    st, kinds, cases = c01.run_conform(chk, pairs, 8 if quick else 12, 400 if quick else 3000, 'end')
+    st, kinds, cases = c01.run_conform(chk, pairs, 8 if quick else 12, 1600 if quick else 9000, 'end')
     from props import c06
     cs = c06.c_stage(chk, [p for p, a in pairs][::3 if quick else 2], rng, 2, 'EOF program')
     chk.coverage = {
